@@ -7,6 +7,7 @@ package c04
 import (
 	"encoding/json"
 	"fmt"
+	"runtime/debug"
 	"strings"
 	"time"
 
@@ -74,6 +75,7 @@ func replay(_ *core.Ctx, data json.RawMessage) []core.Violation {
 }
 
 func run(c *core.Ctx) {
+	defer debug.SetGCPercent(debug.SetGCPercent(400)) // short-lived small maps only: collect less often
 	t0 := time.Now()
 	if c.Only == "" || c.Only == "layer" {
 		w, err := newWork()
@@ -126,10 +128,9 @@ func runLayer(c *core.Ctx, w *work) {
 		kmin, kmax int
 		name       string
 	}
-	quickFam := families(false)
-	passes := []pass{{quickFam, 0, 3, "quick-family"}}
+	passes := []pass{{families("quick"), 0, 3, "quick-family"}}
 	if c.Thorough() {
-		passes = []pass{{families(true), 0, 3, "thorough-family"}, {quickFam, 4, 4, "quick-family"}}
+		passes = []pass{{families("thorough"), 0, 3, "thorough-family"}, {families("core"), 4, 4, "core-family"}}
 	}
 	seenPre := map[string]int{}
 	samples := 0
@@ -190,12 +191,22 @@ func runLayerTuple(c *core.Ctx, w *work, tuple layerCase, fam [nSrc][]srcOpt, se
 			c.Count("nontrivial_tuples_of_4_sources_not_hashed", 1)
 		}
 	}
+	nsrc := 0
+	for _, o := range tuple.Srcs {
+		if o != nil {
+			nsrc++
+		}
+	}
 	for shape := 1; shape <= 3; shape++ {
 		if shape == 1 && tuple.Srcs[srcPar] != nil {
 			continue // a parent section needs a subchart
 		}
+		if shape == 2 && nsrc >= 3 && tuple.Srcs[srcPar] == nil {
+			continue // tuples of 3+ sources: 1 and 3 chart levels (2 and 3 when a parent section is present)
+		}
 		lc := tuple
 		lc.Shape = shape
+		lc.AllEntries = nsrc <= 2
 		c.Eval(1)
 		fails, obs := execLayer(w, lc)
 		for _, cl := range obs.classes {
